@@ -50,6 +50,10 @@ def _case(draw, tier):
                 for o in outs[:2]:
                     desc["files"][o] = desc["files"][o] or 2
                 break
+    for t in desc["targets"]:
+        # the protect set may be handed over as any iterable, also one that can be walked only once
+        if t.get("protect") and isinstance(t["protect"], list) and draw(st.integers(0, 3)) == 0:
+            t["protect"] = {"__it": t["protect"]}
     return {
         "desc": desc,
         "invoke": draw(gen.invoke()),
